@@ -2,6 +2,7 @@
 
 mod checks;
 mod driver;
+mod esim;
 mod faults;
 mod frames;
 mod model;
@@ -21,9 +22,16 @@ fn arg_val(args: &[String], name: &str) -> Option<String> {
 
 fn main() {
     let args: Vec<String> = std::env::args().collect();
-    if std::env::var("RIPSIM_PANIC_OUTPUT").is_err() {
+    {
         // panics inside simulated actors are observations, not crashes of the harness
-        std::panic::set_hook(Box::new(|_| {}));
+        let verbose = std::env::var("RIPSIM_PANIC_OUTPUT").is_ok();
+        let default_hook = std::panic::take_hook();
+        std::panic::set_hook(Box::new(move |info| {
+            esim::note_panic(info);
+            if verbose {
+                default_hook(info);
+            }
+        }));
     }
     let cmd = args.get(1).map(|s| s.as_str()).unwrap_or("");
     let code = match cmd {
